@@ -1,6 +1,118 @@
-//! E1 prints and their mutations as inputs for the invariant oracles (filled in once E1 exists).
+//! E1 prints and their mutations (E2c) as inputs for the invariant oracles.
+
+use proptest::prelude::*;
 
 use crate::common::*;
+use crate::gen_recipe::*;
 use crate::inputs::*;
+use crate::pipeline::*;
+use crate::print::*;
+use crate::soup::*;
 
-pub fn run_recipe_inputs(_run: &mut Run, _b: &Budget, _rule: &str, _oracle: InputOracle) {}
+/// split a source text into pieces at character-class boundaries
+pub fn pieces_of(src: &str) -> Vec<String> {
+    let mut out: Vec<String> = vec![];
+    let mut cur = String::new();
+    let mut cur_class = 0u8;
+    for c in src.chars() {
+        let class = if c.is_alphanumeric() {
+            1
+        } else if c == ' ' || c == '\t' {
+            2
+        } else {
+            3
+        };
+        if class == 3 || class != cur_class {
+            if !cur.is_empty() {
+                out.push(std::mem::take(&mut cur));
+            }
+        }
+        cur.push(c);
+        cur_class = class;
+        if class == 3 {
+            out.push(std::mem::take(&mut cur));
+            cur_class = 0;
+        }
+    }
+    if !cur.is_empty() {
+        out.push(cur);
+    }
+    out
+}
+
+pub fn recipe_input_strategy(mutate: bool) -> impl Strategy<Value = InputCase> {
+    let muts = if mutate {
+        proptest::collection::vec((0u8..5, any::<u16>(), 0usize..ALPHABET.len()), 1..5).boxed()
+    } else {
+        Just(vec![]).boxed()
+    };
+    (raw_recipe(None), muts, ext_strategy(), 0u8..2, proptest::bool::weighted(0.7)).prop_map(|(raw, muts, ext, conv, native)| {
+        let m = build(&raw, false);
+        let (src, _) = print_recipe(&m, &raw.tape);
+        let mut pieces = pieces_of(&src);
+        for (kind, pos, tok) in muts {
+            if pieces.is_empty() {
+                pieces.push(ALPHABET[tok].to_string());
+                continue;
+            }
+            let i = (pos as usize * pieces.len()) >> 16;
+            match kind {
+                0 => {
+                    pieces.remove(i);
+                }
+                1 => {
+                    let p = pieces[i].clone();
+                    pieces.insert(i, p);
+                }
+                2 => {
+                    let j = (i + 1).min(pieces.len() - 1);
+                    pieces.swap(i, j);
+                }
+                3 => pieces.insert(i, ALPHABET[tok].to_string()),
+                _ => pieces[i] = ALPHABET[tok].to_string(),
+            }
+        }
+        // mostly the configuration the recipe was written for, sometimes any
+        let (ext, conv) = if native {
+            if raw.ext {
+                (EXT_ALL, 1)
+            } else {
+                (EXT_EMPTY, 0)
+            }
+        } else {
+            (ext, conv)
+        };
+        InputCase { pieces, ext, conv }
+    })
+}
+
+pub fn run_recipe_inputs(run: &mut Run, b: &Budget, rule: &str, oracle: InputOracle) {
+    if run.failed() {
+        return;
+    }
+    run_prop(
+        run,
+        "recipes",
+        &format!("well-formed generated recipes (E1, levels Core and Ext: references, intermediate references, mode switches, front matter, ...) printed with a random spelling, parsed under their own configuration (70%) or a random one; {rule}"),
+        || recipe_input_strategy(false),
+        b.recipe_cases,
+        |c: &InputCase, st| {
+            st.sample(|| c.describe());
+            oracle(&c.input(), c.ext, c.conv, st)
+        },
+    );
+    if run.failed() {
+        return;
+    }
+    run_prop(
+        run,
+        "recipe-mutations",
+        &format!("generated recipes with 1-4 token-level mutations (delete / duplicate / swap / insert / replace by an alphabet token) to reach deep analysis states with malformed input; {rule}"),
+        || recipe_input_strategy(true),
+        b.recipe_cases,
+        |c: &InputCase, st| {
+            st.sample(|| c.describe());
+            oracle(&c.input(), c.ext, c.conv, st)
+        },
+    );
+}
